@@ -3,7 +3,7 @@
 //!    (every template below fails on line 2);
 //!  * sink: a writer that fails at its k-th call must not be written to again and the render must fail.
 //! Prints one JSON line per scenario: {"scenario":.., "check":"located"|"no_write_after_failure", "ok":bool, "detail":..}
-use minijinja::{Environment, Error, ErrorKind, Value};
+use minijinja::{context, Environment, Error, ErrorKind, Value};
 use std::io;
 
 struct FailingSink {
@@ -78,6 +78,38 @@ fn main() {
         let ok = r.is_err() && sink.calls_after_failure == 0 && sink.failed;
         out.push(serde_json::json!({"scenario": format!("sink_fails_at_call_{}", fail_at), "check": "no_write_after_failure", "ok": ok,
             "detail": format!("render result is_err={}, write calls={}, calls after the failure={}", r.is_err(), sink.calls, sink.calls_after_failure)}));
+    }
+    // ---- printing under HTML auto-escaping: whatever kind of value is printed, no markup character of an
+    //      unsafe value reaches the output unescaped; safe strings are written as they are
+    {
+        let env = Environment::new();
+        let lt = "<i>'\"&";
+        let values: Vec<(&str, Value, bool)> = vec![
+            ("string", Value::from(lt), false),
+            ("safe_string", Value::from_safe_string(lt.to_string()), true),
+            ("list_of_strings", Value::from(vec![Value::from(lt)]), false),
+            ("map_with_string", Value::from(std::collections::BTreeMap::from([("k", lt)])), false),
+            ("bytes", Value::from_bytes(lt.as_bytes().to_vec()), false),
+            ("bytes_invalid_utf8", Value::from_bytes(b"\xff<i>'".to_vec()), false),
+            ("number", Value::from(42), false),
+            ("bool", Value::from(true), false),
+            ("none", Value::from(()), false),
+        ];
+        for (name, v, is_safe) in values {
+            let r = env.render_named_str("page.html", "{{ v }}", context! { v => v.clone() });
+            let (ok, detail) = match r {
+                Ok(s) => {
+                    let raw = s.contains('<') || s.contains('>') || s.contains('\'');
+                    if is_safe {
+                        (s == lt, format!("safe string rendered as {:?}", s))
+                    } else {
+                        (!raw, format!("{} rendered as {:?}", name, s))
+                    }
+                }
+                Err(e) => (false, format!("render failed: {}", e)),
+            };
+            out.push(serde_json::json!({"scenario": format!("print_{}", name), "check": "emit_escapes", "ok": ok, "detail": detail}));
+        }
     }
     // ---- fuel: straight-line templates; the caller compares `consumed` with the number of charged instructions
     for (name, src) in [
